@@ -32,7 +32,9 @@ REAL_VS_STUB = {
     "rewrapped_real": ["functools.lru_cache around unyt's own rule functions at a simulator-chosen maxsize"],
     "sim_owned": ["process lifetime (fork per run / per cold-twin call)", "sympy global cache (clear_cache as a fault)",
                   "file object handed to savetxt", "warnings filter"],
-    "absent_not_exercised": ["h5py (write_hdf5/from_hdf5)", "dask", "astropy", "pint", "matplotlib"],
+    "stub": ["h5py: unytsim/fakeh5.py, an in-process File/Group/Dataset/attrs over plain dicts; unyt's write_hdf5 / from_hdf5 are "
+             "real code, the storage is the stub (C12/C13 only: a registry obtained by an HDF5 round trip is one more node)"],
+    "absent_not_exercised": ["dask", "astropy", "pint", "matplotlib"],
 }
 
 
@@ -188,7 +190,7 @@ def write(prop, tier, seed, level, agg, selftest, wall, batch_wall=None, error=N
             "sampling, not proof: holds on the explored histories / fault placements only",
             "interleaving granularity is one public call (unyt is single-threaded; no sub-call pre-emption)",
             "the cold twin uses unyt itself on a history-free registry as the oracle for what a unit string means",
-            "HDF5, dask, astropy, pint and matplotlib routes are not exercised (packages not installed)",
+            "dask, astropy, pint and matplotlib routes are not exercised (packages not installed); HDF5 runs against an in-process h5py stand-in (C12/C13)",
             "numbers taking different floating-point routes are compared up to 16 eps of the result dtype",
         ],
         "wall_s": round(wall, 1),
